@@ -509,8 +509,6 @@ long long c_voronoi(long long nrows, long long ncols,
     {
         /* Get cell number for coordinates */
         idxcell = idxcells_area[i];
-        xy[0] = xypoints[2*i];
-        xy[1] = xypoints[2*i+1];
 
         ierr = getcoord(nrows, ncols, xll, yll, csz, idxcell, xy);
         if(ierr>0)
